@@ -3,7 +3,7 @@ from ..callgraph import explore, storage_effects, message_effects, call_sites, w
 from ..expr import show, find
 from ..ledger import classify
 from .common import entry, msg_enum, variant_env, stored, where, arm_handler
-from .hub_common import (receive_handlers, subtree, Roles, resync_fns, HUBCFG, PARAMS, STATE, BATCH)
+from .hub_common import (receive_handlers, subtree, Roles, resync_fns, early_exits, HUBCFG, PARAMS, STATE, BATCH)
 from .msgs import vec_elems, wasm_execute, coin_parts
 from .C08 import roll_over_fns
 
@@ -22,6 +22,9 @@ def run(prog, world, sem, rep):
              "pools; Undelegate messages pair planner output i with the hub's own delegation i", 3)
     rep.rule("C02.d", "spend-site inventory (the hub's liquid balance is only spent by WithdrawUnbonded): BankMsg::Send only on the withdraw path, "
              "StakingMsg::Delegate only on the bond path, every WasmMsg::Execute carries no funds, no other coin-moving message kinds", 15)
+    rep.rule("C02.f", "the planners place everything: the hub discards the delegation planner's reported remainder, so the planners' distribution "
+             "loops may leave early (other than by exhausting the validator list) only on the edge where the amount still to place was observed "
+             "to be zero", 3)
     rep.rule("C02.e", "slashing first: every pricing handler calls the resync function and every write of STATE in the handler happens after it", 5)
 
     ex = entry(prog, "hub")
@@ -91,6 +94,66 @@ def run(prog, world, sem, rep):
             return f[0] == "truth" and f[2] is False and f[1].op == "call" and f[1].info.endswith("Vec::is_empty") and sem.label(resolve(f[1].args[0])) == REGQ
         g, d = site_guarded(sem, pc[0][0], pc[0][1], fe)
         rep.ob("C02.b", "an empty registry answer is an error", g, d, where(h.body))
+
+    # ---------------------------------------------------------------- C02.f
+    # (i) the hub never uses component 0 (the unplaced remainder) of the delegation planner's result
+    used = False
+    for vn in VARIANT:
+        for v in per[vn]:
+            if v.body.crate != "basset_sei_hub":
+                continue
+            for blk in v.body.blocks:
+                if blk.idx not in v.blocks:
+                    continue
+                ops = []
+                for s_ in blk.stmts:
+                    if s_.rv is not None and s_.rv.kind in ("agg", "bin", "un"):
+                        ops.extend(o for o in s_.rv.ops if o.place is not None)
+                        if s_.rv.place is not None:
+                            pass
+                ops.extend(a for a in blk.term.args if a.place is not None)
+                if blk.term.discr is not None and blk.term.discr.place is not None:
+                    ops.append(blk.term.discr)
+                for o in ops:
+                    try:
+                        e0 = world.ident(v.be.ev_operand(blk.idx, len(blk.stmts), o), expand_ws=False)
+                    except Exception:
+                        continue
+                    if e0.op == "field" and e0.info[0] == "0":
+                        b0 = e0.args[0].args[0] if e0.args[0].op == "proj" else e0.args[0]
+                        if b0.op == "call" and b0.info.endswith("common::calculate_delegations"):
+                            used = True
+    rep.note("hub uses the delegation planner's remainder: %s" % used)
+    for pname in ("calculate_delegations", "calculate_undelegations"):
+        pvs = [v for vn in ("Bond", "Receive") for v in (per[vn] if vn == "Bond" else per["Receive"]) if v.body.path.endswith("common::" + pname)]
+        if not pvs:
+            rep.ob("C02.f", "%s loops" % pname, False, "anchor-lost: planner %s not reached from the hub" % pname)
+            continue
+        pv = pvs[0]
+        from ..cfg import sccs
+        comps = sccs(pv.be.cfg)
+        if not comps:
+            rep.ob("C02.f", "%s loops" % pname, False, "anchor-lost: planner %s has no loop" % pname, where(pv.body))
+            continue
+        bad = []
+
+        def zero_left(f, resolve):
+            # the amount still to place (the planner's first parameter, updated in the loop) observed zero
+            if f[0] == "truth" and f[2] is True and f[1].op == "call" and f[1].info.endswith("::is_zero"):
+                x = f[1].args[0]
+                ps = find(x, lambda y: y.op == "param" and y.info[1] == 1)
+                return bool(ps) or x.op == "rec" or bool(find(x, lambda y: y.op == "rec"))
+            return False
+        seen_loops = 0
+        for comp in comps:
+            seen_loops += 1
+            ee = early_exits(sem, pv, sorted(comp)[0], zero_left)
+            for (u, v_, line) in ee or []:
+                bad.append("line %d" % line)
+        rep.ob("C02.f", "%s distributes until nothing is left" % pname, not bad and (not used or pname != "calculate_delegations"),
+               "the distribution loop can be left at %s while an amount is still unplaced (the hub ignores the remainder): coins stay undelegated / unaccounted" % sorted(set(bad))
+               if bad else "%d loop(s); early exits only when the remaining amount is zero" % seen_loops, where(pv.body), key="C02.f | %s" % pname)
+    rep.ob("C02.f", "hub relies on the planner placing everything", not used, "the hub %s the planner's remainder" % ("uses" if used else "discards"), where(ex))
 
     # ---------------------------------------------------------------- C02.c
     vs_r, recv, handlers = receive_handlers(prog, sem)
@@ -182,16 +245,46 @@ def run(prog, world, sem, rep):
         for hv in hl:
             pricing.append(("Receive/%s/%s" % ("+".join(hooks), "+".join(toks)), hv, subtree(vs_r, hv)))
     for name, hv, vs in pricing:
-        rcalls = [blk.idx for blk in hv.body.calls() if blk.idx in hv.blocks and (lambda e: e.op == "call" and e.info in rs)(hv.be.ev_call(blk.idx, blk.term))]
+        # the pricing function: the function of the handler's subtree that calls the resync directly
+        # (the handler itself, or a private function it delegates to)
+        def resync_calls(v):
+            return [blk.idx for blk in v.body.calls() if blk.idx in v.blocks and (lambda e: e.op == "call" and e.info in rs)(v.be.ev_call(blk.idx, blk.term))]
+        cands = [v for v in vs if v.body.kind != "closure" and v.body.path not in rs and resync_calls(v)]
         bad = []
-        if len(rcalls) != 1:
-            bad.append("resync calls in the handler: %d" % len(rcalls))
+        if len(cands) != 1:
+            bad.append("functions calling the resync in this handler: %d" % len(cands))
         else:
-            rb0 = rcalls[0]
-            for (bb, kind, cell, key, val, e) in sem.storage_sites(hv.be):
-                if cell == STATE and bb in hv.blocks:
-                    if kind in ("write", "update") and not hv.be.cfg.dominates(rb0, bb):
-                        bad.append("STATE %s at line %d not after the resync" % (kind, hv.body.blocks[bb].term.line))
-                    if kind == "read":
-                        bad.append("STATE read directly at line %d (pricing must use the re-synchronised state)" % hv.body.blocks[bb].term.line)
+            pf = cands[0]
+            rcalls = resync_calls(pf)
+            if len(rcalls) != 1:
+                bad.append("resync calls in %s: %d" % (pf.body.path, len(rcalls)))
+            else:
+                rb0 = rcalls[0]
+                in_resync = set(id(x) for x in vs if any(a.body.path in rs for a in _ancestors(x)))
+                for v in vs:
+                    if v.body.kind == "closure" or id(v) in in_resync or v.body.path in rs:
+                        continue
+                    for (bb, kind, cell, key, val, e) in sem.storage_sites(v.be):
+                        if cell != STATE or bb not in v.blocks:
+                            continue
+                        # position of this access at the level of the pricing function
+                        lv, lbb = v, bb
+                        while lv is not pf and lv.parent is not None:
+                            lv, lbb = lv.parent
+                        if lv is not pf:
+                            bad.append("STATE %s in %s outside the pricing function" % (kind, v.body.path))
+                            continue
+                        if kind in ("write", "update") and not pf.be.cfg.dominates(rb0, lbb):
+                            bad.append("STATE %s at %s:%d not after the resync" % (kind, v.body.path.split("::")[-1], v.body.blocks[bb].term.line))
+                        if kind == "read":
+                            bad.append("STATE read directly at %s:%d (pricing must use the re-synchronised state)" % (v.body.path.split("::")[-1], v.body.blocks[bb].term.line))
         rep.ob("C02.e", "%s: resync before pricing and before every STATE write" % name, not bad, "; ".join(bad) if bad else "resync dominates all STATE writes; no raw STATE read", where(hv.body), key="C02.e | %s" % name)
+
+
+def _ancestors(v):
+    out = []
+    x = v
+    while x is not None:
+        out.append(x)
+        x = x.parent[0] if x.parent else None
+    return out
